@@ -369,3 +369,22 @@ func (s *Server) PushReconnectAll() {
 		_ = s.WriteRaw(id, pkt, 0, 0, "reconnect-push")
 	}
 }
+
+// OpenConnIDs lists the connections that have been accepted and not closed yet.
+func (s *Server) OpenConnIDs() []int {
+	s.mu.Lock()
+	defer s.mu.Unlock()
+	var out []int
+	for id := range s.conns {
+		closed := false
+		for _, e := range s.events {
+			if e.Conn == id && e.What != "accepted" {
+				closed = true
+			}
+		}
+		if !closed {
+			out = append(out, id)
+		}
+	}
+	return out
+}
